@@ -3,8 +3,10 @@
    Model: Filter.compute_attractors_filter is the model of compute_attractors_symbolic (the exact
    reachability filter); the candidate list it receives is required to cover the node's attractors
    (property C08).  Checks.check_seeds is the predicate evaluated on the implementation's seeds.
-   PARTIAL: the owner of an attractor is unique only by the correspondence run (global verdict); block,
-   source-SCC and attractor-seed expansion are not modelled (their seeds are judged by check_seeds only).
+   OwnerFacts: in a fully expanded diagram every attractor has exactly one owner node, so per-node one-to-one
+   seeds give a global one-to-one correspondence (global_one_to_one).  PARTIAL: for block and attractor-seed
+   expansion the models (Blocks.v, ASeeds.v) are replayed against the code but the global bijection is decided by
+   the verdicts; the source-SCC strategy is not modelled and has the known finding D15.
 
    This file contains only restatements closed by `exact` (statements produced by Coq's own
    `Check` of the library lemma) plus non-vacuity Examples, each followed by Print Assumptions. *)
@@ -12,7 +14,7 @@ From Coq Require Import List Bool Arith NArith Lia Relations Permutation.
 Import ListNotations.
 From BB Require Import BN Brute SpaceFacts TrapFacts PercolateFacts AttractorFacts Diagram Invariants Checks Filter
   Strict PetriNet Control Meta FilterFacts PetriNetFacts TrappistFacts DiagramStruct DiagramSem1 DiagramCache
-  DiagramDepth DiagramComplete Termination ControlFacts MetaFacts Candidates StrictFacts MinExpandFacts CandidatesFacts SymbolicTest SymbolicTestFacts Signed ReductionFacts ControlFacts2 Main.
+  DiagramDepth DiagramComplete Termination ControlFacts MetaFacts Candidates StrictFacts MinExpandFacts CandidatesFacts SymbolicTest SymbolicTestFacts Signed ReductionFacts ControlFacts2 Main Blocks BlocksFacts ObsFacts OwnerFacts CandidatesTerm.
 
 (* given covering candidates, the filter returns exactly one seed per attractor of the node, and the sets are the attractors *)
 Theorem C01_filter_exact : forall (N : net) (S : space) (motifs : list space) (cands seeds : list state) (sets : list (list state)), trap_space N S -> (forall M : space, In M motifs -> trap_space N M /\ subspace M S = true) -> NoDup cands -> (forall c : state, In c cands -> in_space c S = true) -> covers N S motifs cands -> compute_attractors_filter N false motifs cands = (seeds, Some sets) -> one_to_one N S motifs seeds /\ length sets = length seeds /\ (forall (i : nat) (s : state) (X : list state), nth_error seeds i = Some s -> nth_error sets i = Some X -> forall t : state, In t X <-> reach N s t).
@@ -58,6 +60,18 @@ Proof. exact pipeline_then_filter_exact. Qed.
 Theorem C01_nfvs_reduction : forall (N : net) (S : space) (avoid : list space) (nfvs : list nat), trap_space N S -> (forall a : space, In a avoid -> trap_space N a) -> NoDup nfvs -> (forall v : nat, In v nfvs -> v < nvars N) -> no_neg_walk N S nfvs -> reduction_hyp N S avoid nfvs.
 Proof. exact nfvs_reduction. Qed.
 
+(* every attractor has an owner node in the fully expanded diagram *)
+Theorem C01_owner_exists : forall (N : net) (d : sd) (A : state -> Prop), Hierarchy N d -> attractor N A -> exists i : nat, owns N d i A.
+Proof. exact owner_exists. Qed.
+
+(* ... and only one *)
+Theorem C01_owner_unique : forall (N : net) (d : sd) (A : state -> Prop) (i j : nat), Hierarchy N d -> attractor N A -> owns N d i A -> owns N d j A -> i = j.
+Proof. exact owner_unique. Qed.
+
+(* per-node exactness gives the global bijection *)
+Theorem C01_global_one_to_one : forall (N : net) (d : sd) (seeds : nat -> list state), Hierarchy N d -> all_seeds_ok N d seeds -> (forall A : state -> Prop, attractor N A -> exists (i : nat) (s : state), i < size d /\ In s (seeds i) /\ A s) /\ (forall (A : state -> Prop) (i j : nat) (s t : state), attractor N A -> i < size d -> j < size d -> In s (seeds i) -> In t (seeds j) -> A s -> A t -> i = j /\ s = t) /\ (forall (i : nat) (s : state), i < size d -> In s (seeds i) -> exists A : state -> Prop, attractor N A /\ A s /\ inside A (n_space (get d i))).
+Proof. exact global_one_to_one. Qed.
+
 (* non-vacuity: two bistable switches; x0'=x1, x1'=x0, x2'=x3, x3'=x2 *)
 Definition ex_sw : net := [fun s => nth 1 s false; fun s => nth 0 s false; fun s => nth 3 s false; fun s => nth 2 s false].
 Definition ex_cfg : config := {| max_motifs := 1000 |}.
@@ -79,3 +93,6 @@ Print Assumptions C01_reaches_attractor.
 Print Assumptions C01_attractor_in_percolation.
 Print Assumptions C01_pipeline_then_filter_exact.
 Print Assumptions C01_nfvs_reduction.
+Print Assumptions C01_owner_exists.
+Print Assumptions C01_owner_unique.
+Print Assumptions C01_global_one_to_one.
